@@ -70,6 +70,18 @@ theorem isSuppressed_matched_iff_spec (env : Env) (s : Suppr) (m : Msg) (hx : su
     isSuppressed env s m = .matched ↔ Spec.matchesB env s m = true :=
   isSuppressed_matched_iff env s m hx
 
+/-- for every finding that carries an id (all findings cppcheck emits) the rule taken from the code is vacuous:
+    `Matched` ⇔ the rules of the manual alone -/
+theorem isSuppressed_matched_iff_documented (env : Env) (s : Suppr) (m : Msg) (hx : supprExact s = true)
+    (hid : m.errorId ≠ []) : isSuppressed env s m = .matched ↔ Spec.documented env s m = true := by
+  rw [isSuppressed_matched_iff env s m hx]
+  unfold Spec.matchesB Spec.idlessRule
+  have : m.errorId.isEmpty = false := by
+    cases h : m.errorId with
+    | nil => exact absurd h hid
+    | cons _ _ => rfl
+  simp [this]
+
 example : supprExact
     { errorId := "null*".toList, fileName := "src/*.c".toList, lineNumber := 12, symbolName := "p?r".toList } = true := by
   decide
@@ -99,6 +111,7 @@ theorem isSuppressed_starstar_regression :
 theorem listIsSuppressed_iff (env : Env) (g : Bool) (m : Msg) (l : List Suppr) (hx : ∀ s ∈ l, supprExact s = true) :
     (listIsSuppressed env g m l).1 = true ↔ ∃ s ∈ l, Spec.active g m s = true ∧ Spec.matchesB env s m = true := by
   rw [listIsSuppressed_fst, anyMatch_iff]
+  simp only [active_eq_considered]
   constructor
   · rintro ⟨s, hs, h1, h2⟩
     exact ⟨s, hs, h1, (isSuppressed_matched_iff env s m (hx s hs)).1 h2⟩
@@ -118,6 +131,7 @@ theorem supB_iff (env : Env) (cfg : GCfg) (nomsg : List Suppr) (f : Finding) (hx
     supB env cfg nomsg f = true ↔ Spec.Suppressed env cfg nomsg f := by
   unfold supB Spec.Suppressed
   rw [anyMatch_iff]
+  simp only [active_eq_considered]
   constructor
   · rintro ⟨s, hs, h1, h2⟩
     exact ⟨s, hs, h1, (isSuppressed_matched_iff env s _ (hx s hs)).1 h2⟩
@@ -256,6 +270,7 @@ theorem laterB_iff (env : Env) (cfg : GCfg) (nomsg : List Suppr) (f : Finding) (
     laterB env cfg nomsg f = true ↔ Spec.SuppressedByAll env cfg nomsg f := by
   unfold laterB Spec.SuppressedByAll
   rw [anyMatch_iff]
+  simp only [active_eq_considered]
   constructor
   · rintro ⟨s, hs, h1, h2⟩
     exact ⟨s, hs, h1, (isSuppressed_matched_iff env s _ (hx s hs)).1 h2⟩
@@ -315,7 +330,7 @@ theorem line_semantics (env : Env) (s : Suppr) (m : Msg) (hx : supprExact s = tr
       | .blockEnd => False := by
   rw [isSuppressed_matched_iff env s m hx]
   obtain ⟨h1, h2, h3, h4, h5⟩ := hother
-  unfold Spec.matchesB Spec.locationMatches
+  unfold Spec.matchesB Spec.documented Spec.idlessRule Spec.locationMatches
   rw [h1, h2, h3]
   cases ht : s.type <;> simp [h4, h5, or_assoc]
 
@@ -335,6 +350,27 @@ example : printable ⟨fun _ _ => false, id⟩
   decide
 example : printable ⟨fun _ _ => false, id⟩ { errorId := "memleak".toList, fileName := "C:/x/a.c".toList } = true := by
   decide
+
+/-- SUPPRESSION FILES IN TEXT FORM: `parseFile` of a file that holds one printed suppression per line adds exactly these
+    suppressions, in order, stopping at the first one `addSuppression` rejects (`addSeq`).  Hypotheses per entry:
+    `printable`, the line is not a blank / comment line, and it contains no line break (no symbol / polyspace extras). -/
+theorem parseFile_print (env : Env) (ss : List Suppr) (l : List Suppr)
+    (h : ∀ s ∈ ss, printable env s = true ∧ skipLine (toString s) = false ∧
+      (toString s).all (fun c => c != '\n' && c != '\r') = true) :
+    parseFile env l (fileOf ss) = addSeq (ss.map printedFields) l :=
+  parseFile_print_aux env ss l h
+
+example : let s : Suppr := { errorId := "memleak".toList, fileName := "src/a.c".toList, lineNumber := 12 }
+    printable ⟨fun _ _ => false, id⟩ s = true ∧ skipLine (toString s) = false ∧
+      (toString s).all (fun c => c != '\n' && c != '\r') = true := by decide
+
+/-- SUPPRESSION FILES IN XML FORM (after tinyxml2): the `<suppress>` elements written for a list of suppressions
+    (`<id>`, `<fileName>`, `<lineNumber>`, `<symbolName>`; absent fields omitted) are read back as exactly these
+    suppressions (file names simplified), added in order, stopping at the first rejection -/
+theorem parseXml_print (env : Env) (ss : List Suppr) (l : List Suppr)
+    (h : ∀ s ∈ ss, intMin ≤ s.lineNumber ∧ s.lineNumber ≤ intMax) :
+    parseXml env (ss.map fun s => ("suppress".toList, xmlOf s)) l = addSeqX (ss.map (xmlFieldsOf env)) l :=
+  parseXml_print_aux env ss l h
 
 /-- not every suppression is printable: a line number without file name is dropped by `toString` -/
 theorem print_drops_line_without_file :
@@ -374,6 +410,101 @@ theorem addSuppression_block_dropped_counterexample :
     addSuppressionG false [u] b = (.exists, [u]) ∧ Spec.matchesB env b m = true ∧
     (listIsSuppressed env true m [u]).1 = false ∧
     addSuppressionG true [u] b = (.ok, [u, b]) ∧ (listIsSuppressed env true m [u, b]).1 = true := by
+  decide
+
+end Cppcheck.Suppress
+
+namespace Cppcheck.Suppress
+open Cppcheck.Wire
+
+/-- PARALLEL RUNS (`-j N`, thread and process executor): the worker's logger applies only the suppressions bound to one file,
+    `Executor::hasToLog` applies the whole list afterwards.  For every file matcher, suppression lists and finding sequence:
+    a finding comes out of worker ∘ executor (unaltered) iff it is in the run and is an internal message or a reportable
+    finding with a non-empty rendering that NO entry of the whole list matches by the documented rules.
+    Hypotheses: no safety mode (there the two paths really differ: `parallel_safety_counterexample`, known finding
+    `safety-global-suppressed-critical` of C15); distinct findings render differently (or `emitDuplicates`); no unpaired
+    begin/end markers; macro suppressions are bound to their file (inline comments always are). -/
+theorem reported_parallel_iff (env : Env) (cfg : GCfg) (nomsg nofail : List Suppr) (fs : List Finding)
+    (hs : cfg.safety = false) (hd : cfg.emitDuplicates = true ∨ TextInj fs) (hx : ∀ s ∈ nomsg, supprExact s = true)
+    (hmac : ∀ s ∈ nomsg, s.type = .macro → isLocal s = true) (f : Finding) :
+    Reported (parallelRun env cfg nomsg nofail fs).kept f ↔
+      f ∈ fs ∧ (f.internal = true ∨
+        (f.libReports = true ∧ f.text ≠ [] ∧ ¬ Spec.SuppressedByAll env cfg nomsg f)) := by
+  unfold parallelRun
+  dsimp only
+  have hfl : FlagEq (gate env { cfg with useGlobal := false } nomsg nofail fs).nomsg nomsg :=
+    gateG_nomsg dupFixApplied env { cfg with useGlobal := false } nomsg nofail fs
+  rw [execFilter_kept env cfg nomsg _ _ hfl]
+  have hout : (gate env { cfg with useGlobal := false } nomsg nofail fs).out =
+      outAcc dupFixApplied env { cfg with useGlobal := false } nomsg ([], []) fs := gateG_out _ _ _ _ _ _
+  have hinj : cfg.emitDuplicates = true ∨ OutInj (gate env { cfg with useGlobal := false } nomsg nofail fs).out := by
+    rcases hd with hd | hd
+    · exact Or.inl hd
+    · right
+      intro o ho o' ho' ht
+      rw [hout] at ho ho'
+      exact hd _ (outAcc_mem _ _ _ _ _ _ o ho) _ (outAcc_mem _ _ _ _ _ _ o' ho') ht
+  rw [reported_eAcc env cfg nomsg _ [] hinj f]
+  have hw := reported_iff_unsuppressed_gen dupFixApplied env { cfg with useGlobal := false } nomsg nofail fs hd hx f
+  have hw' : Reported (gate env { cfg with useGlobal := false } nomsg nofail fs).out f ↔
+      f ∈ fs ∧ passes env { cfg with useGlobal := false } nomsg f = true := by
+    rw [passes_iff _ _ _ _ hx]; exact hw
+  rw [hw']
+  have hcomb := sup_local_or_later env cfg nomsg f hmac
+  have hlat := laterB_iff env cfg nomsg f hx
+  unfold passes ePass
+  have hsaf : ({ cfg with useGlobal := false } : GCfg).safety = false := hs
+  generalize ({ cfg with useGlobal := false } : GCfg) = cW at hcomb hsaf ⊢
+  rw [hsaf]
+  constructor
+  · rintro ⟨⟨hm, hp⟩, he⟩
+    refine ⟨hm, ?_⟩
+    by_cases hi : f.internal = true
+    · exact Or.inl hi
+    · right
+      simp only [hi, Bool.false_eq_true, Bool.false_or, Bool.and_false, Bool.false_and, Bool.or_false,
+        Bool.and_eq_true, Bool.not_eq_true', List.contains_nil, Bool.not_false, Bool.or_true, Bool.and_true] at hp he
+      refine ⟨hp.1, by simpa using hp.2.2, fun hall => ?_⟩
+      have := hlat.2 hall
+      rw [← hcomb, hp.2.1, he.1] at this
+      cases this
+  · rintro ⟨hm, hp⟩
+    rcases hp with hi | ⟨hl, ht, hns⟩
+    · exact ⟨⟨hm, by simp [hi]⟩, by simp [hi]⟩
+    · have hlb : laterB env cfg nomsg f = false := by
+        cases hb : laterB env cfg nomsg f with
+        | false => rfl
+        | true => exact absurd (hlat.1 hb) hns
+      rw [hlb] at hcomb
+      simp only [Bool.or_eq_false_iff] at hcomb
+      have hte : f.text.isEmpty = false := by
+        cases h : f.text with
+        | nil => exact absurd h ht
+        | cons _ _ => rfl
+      exact ⟨⟨hm, by simp [hl, hcomb.1, hte]⟩, by simp [hcomb.2, hte]⟩
+
+/-- … hence a parallel run reports exactly what the single-job logger (all suppressions at once) reports -/
+theorem reported_parallel_eq_single (env : Env) (cfg : GCfg) (nomsg nofail : List Suppr) (fs : List Finding)
+    (hs : cfg.safety = false) (hd : cfg.emitDuplicates = true ∨ TextInj fs) (hx : ∀ s ∈ nomsg, supprExact s = true)
+    (hmac : ∀ s ∈ nomsg, s.type = .macro → isLocal s = true) (f : Finding) :
+    Reported (parallelRun env cfg nomsg nofail fs).kept f ↔
+      Reported (gate env { cfg with useGlobal := true } nomsg nofail fs).out f := by
+  rw [reported_parallel_iff env cfg nomsg nofail fs hs hd hx hmac f,
+    reported_iff_unsuppressed_nosafety env { cfg with useGlobal := true } nomsg nofail fs hs hd hx f]
+  rfl
+
+example : (∀ s ∈ ([{ errorId := "x".toList, fileName := "a.c".toList, type := .macro, macroName := "M".toList },
+                   { errorId := "y*".toList }] : List Suppr), s.type = .macro → isLocal s = true) := by decide
+
+/-- safety mode is excluded for a reason (C15's known finding `safety-global-suppressed-critical`): a critical error
+    suppressed by a glob is forwarded by the single-job logger, but a parallel run drops it in the executor -/
+theorem parallel_safety_counterexample :
+    let env : Env := ⟨fun p f => p = f, id⟩
+    let cfg : GCfg := { safety := true }
+    let nomsg : List Suppr := [{ errorId := "syntax*".toList }]
+    let f : Finding := { critical := true, text := "a.c:1:syntaxError".toList, id := "syntaxError".toList,
+                         stack := [("a.c".toList, 1)] }
+    (gate env cfg nomsg [] [f]).out = [{ f := f }] ∧ (parallelRun env cfg nomsg [] [f]).kept = [] := by
   decide
 
 end Cppcheck.Suppress
